@@ -22,6 +22,7 @@ not analysed; dynamic attribute names (getattr with computed names) are resolved
 from __future__ import annotations
 
 import ast
+import functools
 import importlib
 import inspect
 import os
@@ -53,10 +54,10 @@ FRESH_METHODS = {
     "get_userspace_location", "getStatNames", "getVariableFonts", "normalizeLocation", "most_common", "groupby", "getDataForSerialization",
 }
 PURE_BUILTINS = {
-    "len", "isinstance", "issubclass", "hasattr", "int", "float", "str", "bool", "abs", "min", "max", "sum", "round", "any", "all", "repr",
+    "len", "isinstance", "issubclass", "hasattr", "int", "float", "str", "bool", "abs", "round", "any", "all", "repr",
     "hash", "id", "ord", "chr", "print", "callable", "format", "divmod", "pow", "hex", "bin", "oct", "otRound", "range", "bytes", "bytearray",
     "open", "object", "property", "staticmethod", "classmethod", "ValueError", "TypeError", "KeyError", "NotImplementedError",
-    "cast", "ceil", "floor", "sqrt", "log", "atan2", "degrees", "normpath", "evaluateRule", "optimizeWidths", "calcCodePageRanges",
+    "ceil", "floor", "sqrt", "log", "atan2", "degrees", "normpath", "evaluateRule", "optimizeWidths", "calcCodePageRanges",
 }
 # fontTools.designspaceLib.split: yield (key, document) pairs; each document is a NEW document whose source
 # descriptors still reference the original font objects
@@ -207,6 +208,13 @@ class Analysis:
         self.strong_reads = set()
         self.cuts = set()  # (file, line): call expressions whose result is treated as NOT aliasing the sources (known findings)
         self.cut_hits = set()
+        # constructs met in reachable code that the analysis does not model: (site, reason). A run with a
+        # non-empty set is NOT a proof (the driver reports each entry as an undischarged obligation).
+        self.unsupported = {}
+        self.converged = True
+        self._modctx = {}
+        self._glob_elems = {}
+        self._late = {}
         self._load()
 
     # ---- program ----------------------------------------------------------------------------------
@@ -252,6 +260,8 @@ class Analysis:
             f = f.__func__
         if isinstance(f, property):
             f = f.fget
+        if isinstance(f, functools.cached_property):
+            f = f.func
         f = inspect.unwrap(f) if callable(f) else f
         if not isinstance(f, types.FunctionType):
             return
@@ -260,14 +270,38 @@ class Analysis:
         self.funcs[id(f)] = Func(f, node, mod, cls)
 
     def func_of(self, pyf):
-        pyf0 = pyf
         while isinstance(pyf, (staticmethod, classmethod)):
             pyf = pyf.__func__
         try:
             pyf = inspect.unwrap(pyf)
         except Exception:
             pass
-        return self.funcs.get(id(pyf))
+        fn = self.funcs.get(id(pyf))
+        if fn is None and isinstance(pyf, types.FunctionType) and (pyf.__module__ or "").split(".")[0] == self.pkg.split(".")[0] \
+                and (pyf.__module__ == self.pkg or pyf.__module__.startswith(self.pkg + ".")):
+            fn = self._late_register(pyf)
+        return fn
+
+    def _late_register(self, pyf):
+        """A repository function object that was not indexed as a top-level def / method (a module-level lambda, a
+        function produced by a decorator, ...): find its source by position; if that fails the function's effects
+        cannot be analysed, which is recorded as an unsupported construct."""
+        key = id(pyf)
+        if key in self._late:
+            return self._late[key]
+        fn = None
+        tree = self.trees.get(pyf.__module__)
+        if tree is not None:
+            want = ast.Lambda if pyf.__name__ == "<lambda>" else (ast.FunctionDef, ast.AsyncFunctionDef)
+            cands = [n for n in ast.walk(tree) if isinstance(n, want) and n.lineno == pyf.__code__.co_firstlineno
+                     and (isinstance(n, ast.Lambda) or n.name == pyf.__name__)]
+            if len(cands) == 1 and not pyf.__code__.co_freevars:
+                fn = Func(pyf, cands[0], self.modules[pyf.__module__])
+                self.funcs[key] = fn
+        if fn is None:
+            self.flag(None, f"repository function without analysable source: {pyf.__module__}.{pyf.__qualname__}")
+        self._late[key] = fn
+        return fn
 
     # ---- objects ------------------------------------------------------------------------------------
     def obj(self, kind, key, py=None, label=None):
@@ -301,11 +335,42 @@ class Analysis:
             return {self.obj("cls", f"{o.__module__}.{o.__qualname__}", o, f"class {o.__qualname__}")}
         if isinstance(o, (types.FunctionType, types.BuiltinFunctionType, types.MethodType, staticmethod, classmethod, types.MethodDescriptorType)) or callable(o) and not isinstance(o, (dict, list, set)):
             return {self.obj("func", f"{getattr(o, '__module__', '?')}.{getattr(o, '__qualname__', name)}", o, f"func {getattr(o, '__qualname__', name)}")}
-        if isinstance(o, (dict, list, set)):
-            return {self.obj("glob", name, o, f"module-level {type(o).__name__} {name}")}
         if o is None:
             return {self.NONE}
-        return set()
+        if self.is_scalar(o):
+            return set()
+        # any other object that exists when the modules have been imported: module-/class-level state. It is
+        # identified by the python object itself (the same list imported under two names is ONE object); its
+        # contents at import time are read from the object, later additions are tracked like for containers.
+        return {self.obj("glob", id(o), o, f"module-level {type(o).__name__} {name}")}
+
+    @staticmethod
+    def is_scalar(o, depth=0):
+        import enum
+
+        if o is None or isinstance(o, (int, float, str, bytes, complex, enum.Enum, range)):
+            return True
+        if isinstance(o, (tuple, frozenset)) and depth < 3:
+            return all(Analysis.is_scalar(x, depth + 1) for x in o)
+        return False
+
+    def glob_elements(self, o):
+        """contents of a module-level container as found after import (wrapped lazily, once)"""
+        c = getattr(o, "_elems", None) if hasattr(o, "_elems") else None
+        cache = self._glob_elems
+        if o in cache:
+            return cache[o]
+        py = o.py
+        vals = ()
+        if isinstance(py, dict):
+            vals = list(py.values())
+        elif isinstance(py, (list, set, tuple, frozenset)):
+            vals = list(py)
+        out = set()
+        cache[o] = out
+        for v in vals:
+            out |= self.wrap_py(v, f"{o.label.split(' ', 2)[-1]}[…]")
+        return out
 
     # ---- mutation (one frame obligation per site) -------------------------------------------------------
     def mutate(self, objs, node, what, seen=None):
@@ -341,8 +406,10 @@ class Analysis:
             if node.id in self.assume:
                 return self.assume[node.id]
             d = dict(ctx.consts)
-            if node.id in d:
-                return d[node.id]
+            if node.id in d and self.is_initial_read(ctx.func, node):
+                # the constant the CALL passed: only a read that certainly sees the call-time binding has it
+                v = d[node.id]
+                return v if (v is None or isinstance(v, bool)) else ...
             return ...
         if isinstance(node, ast.Attribute) and node.attr in self.assume:
             return self.assume[node.attr]
@@ -414,6 +481,83 @@ class Analysis:
             v = self.const_syntactic(node.operand)
             return ... if v is ... else (not v)
         return ...
+
+    # ---- reads that certainly see the value a parameter had when the function was entered -----------------------
+    def _bindings(self, func):
+        """name -> (positions of every syntactic binding of the name anywhere inside the function, incl. nested
+        scopes; has_walrus) -- parameters themselves are not counted."""
+        if not hasattr(func, "_binds"):
+            out = {}
+            walrus = set()
+
+            def note(name, n):
+                out.setdefault(name, []).append((getattr(n, "lineno", 0), getattr(n, "col_offset", 0)))
+
+            node = func.node
+            body = node.body if isinstance(node.body, list) else [node.body]
+            for st in body:
+                for n in ast.walk(st):
+                    if isinstance(n, ast.Name) and isinstance(n.ctx, (ast.Store, ast.Del)):
+                        note(n.id, n)
+                    elif isinstance(n, ast.NamedExpr) and isinstance(n.target, ast.Name):
+                        walrus.add(n.target.id)
+                    elif isinstance(n, (ast.FunctionDef, ast.AsyncFunctionDef, ast.ClassDef)):
+                        note(n.name, n)
+                    elif isinstance(n, (ast.Import, ast.ImportFrom)):
+                        for al in n.names:
+                            note((al.asname or al.name).split(".")[0], n)
+                    elif isinstance(n, ast.ExceptHandler) and n.name:
+                        note(n.name, n)
+                    elif isinstance(n, (ast.Global, ast.Nonlocal)):
+                        for nm in n.names:
+                            walrus.add(nm)  # rebinding from elsewhere: never "initial"
+                    elif isinstance(n, (ast.MatchAs, ast.MatchStar)) and n.name:
+                        note(n.name, n)
+                    elif isinstance(n, ast.MatchMapping) and n.rest:
+                        note(n.rest, n)
+            func._binds = (out, walrus)
+        return func._binds
+
+    def is_initial_read(self, func, node):
+        """True if the Name `node` (a parameter of `func`, read in func's own scope) certainly evaluates to the
+        value the parameter was bound to by the call.  Argument: python executes the statements of one function
+        body in textual order except for (a) loops, which may re-execute earlier text, (b) nested functions /
+        lambdas / generator expressions, whose bodies run later, (c) the `body if test else orelse` and
+        comprehension forms, where a walrus may run before text to its left.  So if every binding of the name
+        lies textually after the read, no loop that contains the read contains a binding, the read is not inside
+        a deferred scope, and the name is never bound by a walrus / global / nonlocal, then no binding can have
+        executed between function entry and the read."""
+        if isinstance(func.node, ast.Lambda):
+            params = func.node.args
+        else:
+            params = func.node.args
+        names = {x.arg for x in params.posonlyargs + params.args + params.kwonlyargs}
+        if params.vararg:
+            names.add(params.vararg.arg)
+        if params.kwarg:
+            names.add(params.kwarg.arg)
+        if node.id not in names:
+            return False
+        binds, walrus = self._bindings(func)
+        if node.id in walrus:
+            return False
+        pos = (node.lineno, node.col_offset)
+        bl = binds.get(node.id, ())
+        if any(b <= pos for b in bl):
+            return False
+        pm = self._parents(func)
+        cur = node
+        while cur in pm:
+            cur = pm[cur]
+            if cur is func.node:
+                return True
+            if isinstance(cur, (ast.FunctionDef, ast.AsyncFunctionDef, ast.Lambda, ast.GeneratorExp, ast.ClassDef)):
+                return False
+            if isinstance(cur, (ast.For, ast.AsyncFor, ast.While)) and bl:
+                lo, hi = (cur.lineno, cur.col_offset), (cur.end_lineno, cur.end_col_offset)
+                if any(lo <= b <= hi for b in bl):
+                    return False
+        return False
 
     def strong_defs(self, func):
         """name -> sorted end-lines of the assignments that are executed on every path through the function
@@ -515,6 +659,8 @@ class Analysis:
             # `for x in (a, b): ...` is the only binding of x: after the loop x is the LAST element
             if node.lineno > lt[1]:
                 return self.ev(lt[2], ctx)
+        if self.is_initial_read(ctx.func, node):
+            return set(self.V[(ctx.key, node.id + "@in")])
         r = self.lookup(node.id, ctx, node.lineno)
         if r is not None:
             return set(r)
@@ -543,7 +689,7 @@ class Analysis:
             elif o.kind == "NONE":
                 continue
             elif o.kind == "inst":
-                out |= self.F[(o, name)]
+                out |= self.F[(o, name)] | self.F[(o, "*")]  # "*": stored by setattr() with a computed name
                 k, v = self.class_attr(o.py, name)
                 if k is not None:
                     out |= self.bind(v, o, k, name)
@@ -570,11 +716,18 @@ class Analysis:
                             out |= self.bind(k.__dict__[name], selfobj, k, name)
                             break
             elif o.kind == "glob":
-                continue
+                out |= self.F[(o, name)] | self.F[(o, "*")]
+                try:
+                    v = inspect.getattr_static(o.py, name)
+                except AttributeError:
+                    continue
+                if isinstance(v, (types.FunctionType, types.MethodDescriptorType, types.BuiltinFunctionType, types.WrapperDescriptorType, classmethod, staticmethod, property)):
+                    continue  # a method of the object: resolved by method_call
+                out |= self.wrap_py(v, f"{o.label.split(' ', 2)[-1]}.{name}")
             else:  # cont / ext / func / bound
-                known = self.F[(o, name)]
+                known = self.F[(o, name)] | self.F[(o, "*")]
                 out |= known
-                if o.kind == "ext" and not known:
+                if o.kind == "ext" and not self.F[(o, name)]:
                     # unknown attribute of a library object: part of that object's own state (assumption:
                     # library objects hand their constructor arguments back only through the catalogued
                     # protocols: keyword-named attributes, pens' output pen, container elements)
@@ -583,8 +736,11 @@ class Analysis:
 
     def bind(self, v, selfobj, owner, name):
         f = v
-        if isinstance(f, property):
-            fn = self.func_of(f.fget) if f.fget else None
+        if isinstance(f, (property, functools.cached_property)):
+            # reading the attribute runs the getter (a cached property runs it once and then returns the same
+            # object: abstractly the same set of objects either way)
+            getter = f.fget if isinstance(f, property) else f.func
+            fn = self.func_of(getter) if getter else None
             if fn is not None:
                 return self.call_func(fn, [{selfobj}], {}, None, None)
             return set()
@@ -603,11 +759,8 @@ class Analysis:
             return {fo}
         if isinstance(f, type):
             return self.wrap_py(f, name)
-        if isinstance(f, (dict, list, set)):
-            return {self.obj("glob", f"{owner.__module__}.{owner.__qualname__}.{name}", f, f"class-level {type(f).__name__} {owner.__qualname__}.{name}")}
-        if callable(f):
-            return self.wrap_py(f, name)
-        return set()
+        # any other class attribute (None, a constant, a class-level container or object): class-level state
+        return self.wrap_py(f, f"{owner.__qualname__}.{name}")
 
     def e_Attribute(self, node, ctx):
         if node.attr in self.assume:
@@ -726,8 +879,10 @@ class Analysis:
                 out.add(self.SRC)
             elif o.kind == "GS":
                 out.add(self.GS)
-            elif o.kind in ("NONE", "cls", "mod", "func", "glob", "bound"):
+            elif o.kind in ("NONE", "cls", "mod", "func", "bound"):
                 continue
+            elif o.kind == "glob":
+                out |= self.glob_elements(o) | self.F[(o, "[]")]
             elif o.kind == "attrs":
                 for oo in (o.py, o):
                     for a in self.F.attrs_of(oo):
@@ -974,6 +1129,8 @@ class Analysis:
                 # a fresh designspace document whose sources are fresh descriptors that still reference the
                 # ORIGINAL font objects through `.font` (fontTools.designspaceLib; assumed)
                 return self.derived_doc(node, {o})
+            if name == "copy":
+                return self.shallow_copy(node, {o})
             if name in FRESH_METHODS:
                 return self.new_ext(node, {o} | A, through=False)
             if name == "items":
@@ -1004,9 +1161,13 @@ class Analysis:
         if o.kind == "cont":
             return self.cont_method(o, name, node, args, kwargs, A)
         if o.kind == "glob":
+            if isinstance(o.py, (dict, list, set, tuple, frozenset)):
+                return self.cont_method(o, name, node, args, kwargs, A)
             if name in MUTATORS:
                 self.mutate({o}, node, f".{name}()")
-            return set()
+                self.add(self.F[(o, "[]")], A)
+            # opaque module-level library object (logger, compiled regex, ...): like any library object
+            return self.new_ext(node, {o} | A, through=False)
         if o.kind == "ext":
             if name in MUTATORS or name in PEN_METHODS:
                 self.mutate({o}, node, f".{name}()")
@@ -1026,7 +1187,11 @@ class Analysis:
                 return {o}
             if name == "deepcopyExceptFonts":
                 return self.derived_doc(node, {o})
-            return self.new_ext(node, {o} | A, through=False)
+            if name == "copy":
+                return self.shallow_copy(node, {o})
+            # any other method of a library object returns a new library object; if `o` is an opaque view of
+            # other objects (result of an unknown library function) so is what its methods return
+            return self.new_ext(node, {o} | A, through=o.through, target=set(o.target) if o.through else None)
         if o.kind in ("cls", "mod", "super", "func", "bound", "extcls"):
             for c in self.getattr_objs({o}, name, node, ctx):
                 callees.add(c)
@@ -1054,6 +1219,9 @@ class Analysis:
         if name in ("extend", "update", "difference_update", "intersection_update", "symmetric_difference_update"):
             self.mutate({o}, node, f".{name}()")
             self.add(el, self.elements(A) | {x for x in A if x.kind not in ("cont",)})
+            if name == "update":
+                # dict.update(iterable of (key, value) pairs): the values are the new elements
+                self.add(el, self.pair_values(self.elements(A)))
             for _, (_, s) in kwargs.items():
                 self.add(el, s)
             return set()
@@ -1075,6 +1243,39 @@ class Analysis:
         if name in ("index", "count", "isdisjoint", "issubset", "issuperset", "__contains__", "__len__", "join", "format"):
             return set()
         return self.elements({o})
+
+    def pair_values(self, objs):
+        """values of (key, value) pairs: the second position of 2-tuples, every element of anything else"""
+        out = set()
+        for o in objs:
+            if o.kind == "cont" and o.py == 2:
+                out |= self.F[(o, ("pos", 1))]
+            elif o.kind in ("SRC", "GS"):
+                out.add(o)
+            else:
+                out |= self.elements({o})
+        return out
+
+    def shallow_copy(self, node, origs, what="copy"):
+        """copy.copy(x) / x.copy() of a library or source object: a NEW object whose attributes and elements
+        are the SAME objects as the original's (writes to the copy itself are harmless, writes to what it
+        holds reach the original's children)."""
+        r = self.new_ext(node, set(), through=False)
+        (e,) = r
+        for x in origs:
+            if x.kind in ("SRC", "GS"):
+                self.add(self.F[(e, "*")], {x})
+                self.add(self.F[(e, "[]")], {x})
+            elif x.kind == "glob":
+                self.add(self.F[(e, "[]")], self.elements({x}))
+            elif x.kind in ("inst", "cont", "ext", "attrs"):
+                for a in self.F.attrs_of(x):
+                    self.add(self.F[(e, a)], self.F[(x, a)])
+                if x.kind == "ext" and x.through:
+                    # an opaque view of something: what it exposes is not known by name
+                    self.add(self.F[(e, "*")], x.target)
+                    self.add(self.F[(e, "[]")], x.target)
+        return r
 
     def derived_doc(self, node, docs):
         """A fresh designspace-like object derived from `docs`: its own attributes/elements are fresh (itself),
@@ -1136,7 +1337,21 @@ class Analysis:
             return out
         if c.kind in ("SRC", "GS", "ext"):
             # calling something obtained from a library/source object (e.g. a class stored on it)
+            self.invoke_callbacks(self.all_args(args, kwargs, star_kw), node, ctx)
             return self.new_ext(node, self.all_args(args, kwargs, star_kw), through=False)
+        if c.kind == "cont" and c.key[-1] == "partial":
+            bound = set(self.F[(c, "[]")])
+            pos = set(bound)
+            for an, s_ in args:
+                pos |= s_
+            kw2 = dict(kwargs)
+            for a in self.F.attrs_of(c):
+                if isinstance(a, str) and a.startswith("k:") and a[2:] not in kw2:
+                    kw2[a[2:]] = (None, self.F[(c, a)])
+            out = set()
+            for f in self.F[(c, "f")]:
+                out |= self.apply(f, node, [("*", pos)] if pos else [], kw2, star_kw, ctx)
+            return out
         return set()
 
     def instantiate(self, c, node, args, kwargs, star_kw, ctx):
@@ -1147,12 +1362,26 @@ class Analysis:
             return self.lib_call("super", None, node, args, kwargs, star_kw, ctx)
         if not mod.startswith(self.pkg):
             name = pycls.__name__
+            cb_results = self.invoke_callbacks(A, node, ctx)
             if issubclass(pycls, BaseException):
                 return set()
             if name in COPYING_BUILTINS or pycls in (list, tuple, set, frozenset, dict):
                 pos_el = set()
                 for _, s_ in args:
                     pos_el |= self.elements(s_)
+                if isinstance(pycls, type) and issubclass(pycls, dict):
+                    if name == "defaultdict":
+                        # defaultdict(factory): a missing key is filled with factory(): those values are
+                        # elements too (one abstract object per defaultdict site)
+                        pos_el = set()
+                        for an, s_ in args[:1]:
+                            for fo in s_:
+                                pos_el |= self.apply(fo, node, [], {}, set(), ctx)
+                        for _, s_ in args[1:]:
+                            pos_el |= self.pair_values(self.elements(s_))
+                    else:
+                        # dict(iterable of (key, value) pairs): the VALUES are the elements
+                        pos_el = self.pair_values(pos_el) | {x for _, s_ in args for x in s_ if x.kind in ("SRC", "GS")}
                 r = self.new_cont(node, pos_el | self.elements(star_kw), name)
                 (o,) = r
                 for kk, (_, s_) in kwargs.items():
@@ -1169,11 +1398,14 @@ class Analysis:
                     return self.classes_of(args[0][1])
                 return set()
             if name in ("zip", "zip_longest"):
-                return self.rows(node, [self.elements(s_) for _, s_ in args], name)
+                fill = ((kwargs.get("fillvalue") or (None, {self.NONE}))[1]) if name == "zip_longest" else set()
+                return self.rows(node, [self.elements(s_) | fill for _, s_ in args], name)
+            if name == "partial":
+                return self.new_partial(node, args, kwargs)
             if name == "enumerate":
                 return self.rows(node, [set(), self.elements(args[0][1]) if args else set()], name)
             if name in ITER_BUILTINS or mod == "itertools":
-                return self.new_cont(node, self.elements(A) | {x for x in A if x.kind == "func"}, name)
+                return self.new_cont(node, self.elements(A) | cb_results | {x for x in A if x.kind == "func"}, name)
             # library object: may keep references to its arguments; a pen forwards what is drawn into it to
             # its FIRST argument (the output pen) only
             pen_like = name.endswith("Pen") or "Pen" in name
@@ -1217,8 +1449,28 @@ class Analysis:
 
     def lib_call(self, name, py, node, args, kwargs, star_kw, ctx):
         A = self.all_args(args, kwargs, star_kw)
+        if name in ("exec", "eval", "globals", "locals", "__import__", "__build_class__"):
+            self.flag(node, f"{name}()")
+            return set()
+        # analysed callables handed to library code (key=, map(f, ..), callbacks) may be invoked by it, with
+        # anything reachable from the other arguments; what they return may end up in the library's result
+        cb_results = self.invoke_callbacks(A, node, ctx)
         if name in PURE_BUILTINS:
             return set()
+        if name in ("min", "max"):
+            # one of the arguments, or one of the elements of the (single) iterable argument
+            out = set()
+            for _, s_ in args:
+                out |= self.elements(s_) | {x for x in s_ if x.kind not in ("cont", "func", "bound")}
+            out |= (kwargs.get("default") or (None, set()))[1]
+            return out
+        if name == "sum":
+            el = set()
+            for _, s_ in args:
+                el |= self.elements(self.elements(s_)) | self.elements(s_)
+            return self.new_cont(node, el, "sum")
+        if name == "cast" and len(args) == 2:
+            return set(args[1][1])
         if py is not None and getattr(py, "__module__", "").startswith("booleanOperations"):
             # union(contours, outPen) & co draw their result into the pen given as second argument
             if len(args) > 1:
@@ -1241,16 +1493,21 @@ class Analysis:
         if name == "deepcopy":
             return self.new_cont(node, set(), "deepcopy")
         if name == "copy" and py is not None and getattr(py, "__module__", "") == "copy":
-            o = self.new_ext(node, A, through=False)
-            return o
+            return self.shallow_copy(node, A)
         if name in COPYING_BUILTINS:
-            return self.new_cont(node, self.elements(A), name)
+            el = self.elements(A)
+            if name in ("dict", "OrderedDict", "defaultdict", "Counter"):
+                el = self.pair_values(el) | el
+            return self.new_cont(node, el, name)
         if name in ("zip", "zip_strict", "zip_longest"):
-            return self.rows(node, [self.elements(s_) for _, s_ in args], name)
+            fill = ((kwargs.get("fillvalue") or (None, {self.NONE}))[1]) if name == "zip_longest" else set()
+            return self.rows(node, [self.elements(s_) | fill for _, s_ in args], name)
         if name == "enumerate":
             return self.rows(node, [set(), self.elements(args[0][1]) if args else set()], name)
+        if name == "partial":
+            return self.new_partial(node, args, kwargs)
         if name in ITER_BUILTINS:
-            return self.new_cont(node, self.elements(A) | {x for x in A if x.kind in ("func", "bound")}, name)
+            return self.new_cont(node, self.elements(A) | cb_results | {x for x in A if x.kind in ("func", "bound")}, name)
         if name == "next":
             return self.elements(args[0][1]) | (args[1][1] if len(args) > 1 else set()) if args else set()
         if name == "getattr":
@@ -1307,11 +1564,39 @@ class Analysis:
             return set()
         # unknown library function: the result may reference (and, if mutated, alias) its arguments
         self.unknown_calls.add(name)
-        r = self.new_ext(node, A, through=True, target=A)
-        # callbacks handed to library code are invoked with unknown (library) arguments
-        for a in A:
-            if a.kind in ("func", "bound") and (isinstance(a.py, Func) or self.func_of(a.py) is not None):
-                self.apply(a, node, [], {}, set(), ctx)
+        r = self.new_ext(node, A | cb_results, through=True, target=A | cb_results)
+        return r
+
+    def is_analysed_callable(self, a):
+        if a.kind in ("func", "bound"):
+            return isinstance(a.py, Func) or (a.py is not None and self.func_of(a.py) is not None)
+        if a.kind == "inst":
+            k, _ = self.class_attr(a.py, "__call__")
+            return k is not None and k.__module__.startswith(self.pkg)
+        return a.kind == "cont" and a.key[-1] == "partial"
+
+    def invoke_callbacks(self, A, node, ctx):
+        cbs = [a for a in A if self.is_analysed_callable(a)]
+        if not cbs:
+            return set()
+        data = {a for a in A if a not in cbs}
+        U = set(data)
+        for _ in range(2):
+            U |= self.elements(U)
+        out = set()
+        for cb in cbs:
+            out |= self.apply(cb, node, [("*", U)], {}, set(), ctx)
+        return out
+
+    def new_partial(self, node, args, kwargs):
+        """functools.partial(f, *bound, **kw): a callable object; calling it calls f with the bound arguments
+        followed by the call's own (positions are not tracked: every parameter may receive any of them)."""
+        r = self.new_cont(node, set(), "partial")
+        (o,) = r
+        for i, (_, s_) in enumerate(args):
+            self.add(self.F[(o, "f" if i == 0 else "[]")], s_)
+        for kk, (_, s_) in kwargs.items():
+            self.add(self.F[(o, "k:" + kk)], s_)
         return r
 
     def call_func(self, fn, pos, kw, node, ctx, args=None, kwargs=None, star_kw=frozenset()):
@@ -1367,10 +1652,16 @@ class Analysis:
             self.ctxs[ckey] = c
             self.changed = True
         callee = self.ctxs[ckey]
+
+        def bindp(p, vals):
+            # the call-time binding is kept apart (name@in) for reads that certainly see it (is_initial_read)
+            self.add(self.V[(callee.key, p)], vals)
+            self.add(self.V[(callee.key, p + "@in")], vals)
+
         extra = set()
         for i, s in enumerate(pos):
             if i < len(params):
-                self.add(self.V[(callee.key, params[i])], s)
+                bindp(params[i], s)
             else:
                 extra |= s
         if args is not None:
@@ -1378,16 +1669,16 @@ class Analysis:
                 if an == "*":
                     # *iterable at position i can only bind parameters from position i on
                     for p in params[i:]:
-                        self.add(self.V[(callee.key, p)], s)
+                        bindp(p, s)
                     extra |= s
         if a.vararg:
             vo = self.obj("cont", (callee.key, "*args"), None, f"*args of {fn.qual}")
             self.add(self.F[(vo, "[]")], extra)
-            self.add(self.V[(callee.key, a.vararg.arg)], {vo})
+            bindp(a.vararg.arg, {vo})
         kextra = set()
         for k, s in kw.items():
             if k in params or k in kwonly:
-                self.add(self.V[(callee.key, k)], s)
+                bindp(k, s)
             else:
                 kextra |= s
         if star_kw:
@@ -1400,31 +1691,65 @@ class Analysis:
             for p in params[npos:] + kwonly:
                 if p in kw:
                     continue
-                self.add(self.V[(callee.key, p)], plain)
+                bindp(p, plain)
                 for d in dicts:
-                    self.add(self.V[(callee.key, p)], self.F[(d, "k:" + p)])
+                    bindp(p, self.F[(d, "k:" + p)])
                 for v in views:
-                    self.add(self.V[(callee.key, p)], self.F[(v.py, p)] | self.F[(v, "k:" + p)])
+                    bindp(p, self.F[(v.py, p)] | self.F[(v, "k:" + p)])
                     k_, cv = self.class_attr(v.py.py, p)
                     if k_ is not None and not self.F[(v.py, p)]:
-                        self.add(self.V[(callee.key, p)], self.bind(cv, v.py, k_, p) if not isinstance(cv, (types.FunctionType, property)) else set())
+                        bindp(p, self.bind(cv, v.py, k_, p) if not isinstance(cv, (types.FunctionType, property)) else set())
             kextra |= plain | self.elements(views) | self.elements(dicts)
         if a.kwarg:
             ko = self.obj("cont", (callee.key, "**kwargs"), None, f"**kwargs of {fn.qual}")
             self.add(self.F[(ko, "[]")], kextra)
-            self.add(self.V[(callee.key, a.kwarg.arg)], {ko})
-        # defaults
+            bindp(a.kwarg.arg, {ko})
+        # defaults: the default expression was evaluated ONCE, when the `def` statement ran, in the scope that
+        # contains the def (a mutable default is therefore one object shared by all calls). It binds the
+        # parameter whenever the call does not certainly pass it.
         defaults = list(zip(params[len(params) - len(a.defaults):], a.defaults)) if a.defaults else []
         defaults += [(ko.arg, d) for ko, d in zip(a.kwonlyargs, a.kw_defaults) if d is not None]
+        certainly_passed = set(params[: len(pos)]) | set(kw)
         for p, d in defaults:
-            if isinstance(d, ast.Constant) and d.value is None:
-                if p not in set(params[: len(pos)]) and p not in kw:
-                    self.add(self.V[(callee.key, p)], {self.NONE})
+            if p not in certainly_passed:
+                bindp(p, self.default_value(fn, d))
         if fn.is_gen:
             g = self.obj("cont", (callee.key, "gen"), None, f"generator of {fn.qual}")
             self.add(self.F[(g, "[]")], self.Y[callee.key])
             return {g}
         return set(self.R[callee.key])
+
+    def def_ctx(self, fn):
+        """The context in which the `def` of `fn` is executed: the enclosing function's context for a closure, a
+        per-module pseudo context (names resolve to the module's globals) otherwise."""
+        if fn.parent is not None:
+            return fn.parent
+        k = fn.module.__name__
+        c = self._modctx.get(k)
+        if c is None:
+            f = Func.__new__(Func)
+            f.py = None
+            f.node = ast.parse("def _module_(): pass").body[0]
+            f.module = fn.module
+            f.cls = None
+            f.parent = None
+            f.qual = f"{k}:<module>"
+            f.file = fn.file
+            f.is_gen = False
+            f.branch_params = frozenset()
+            c = self._modctx[k] = Ctx(f, ())
+        return c
+
+    def default_value(self, fn, d):
+        if isinstance(d, ast.Constant):
+            return {self.NONE} if d.value is None else set()
+        dctx = self.def_ctx(fn)
+        saved = self.cur
+        self.cur = dctx
+        try:
+            return self.ev(d, dctx)
+        finally:
+            self.cur = saved
 
     # ---- statements -----------------------------------------------------------------------------------------------
     def assign(self, target, val, ctx, node, is_comp=False):
@@ -1552,7 +1877,10 @@ class Analysis:
         elif isinstance(s, ast.FunctionDef):
             self.add(self.V[(ctx.key, s.name)], {self.closure(s, ctx)})
         elif isinstance(s, ast.ClassDef):
-            pass
+            # the class object does not exist at analysis time: its methods would silently stay unanalysed
+            self.flag(s, "class defined inside a function")
+        elif isinstance(s, (ast.Global, ast.Nonlocal)):
+            self.flag(s, "global/nonlocal rebinding")
         elif isinstance(s, ast.Import):
             for al in s.names:
                 try:
@@ -1588,15 +1916,26 @@ class Analysis:
     def new_instance(self, pycls, label=None):
         return self.obj("inst", (pycls.__module__ + "." + pycls.__qualname__, "root"), pycls, label or f"{pycls.__name__}@root")
 
+    def _reset(self):
+        self.V.clear(); self.F.clear(); self.R.clear(); self.Y.clear()
+        keep = {k: v for k, v in self.objs.items() if k[0] in ("SRC", "GS", "NONE") or (k[0] == "inst" and isinstance(k[1], tuple) and k[1][-1] == "root")}
+        self.objs = keep
+        self.ctxs.clear(); self.alarms.clear(); self.sites.clear(); self.globals_mut.clear()
+        self.unknown_calls.clear(); self.cut_hits.clear(); self.repo_calls.clear(); self.strong_reads.clear()
+        self.unsupported.clear()
+        self.changed = True
+
+    def flag(self, node, reason):
+        """Record a construct that is reachable but not modelled (sound fallback: the run is no proof)."""
+        k = (self.site(node) if node is not None and self.cur is not None else ("?", 0, 0), reason)
+        if k not in self.unsupported:
+            self.unsupported[k] = self.cur.key[0] if self.cur is not None else "?"
+
     def solve(self, max_rounds=60, max_restarts=6):
         """Fixpoint, then decide `x is None` tests from the final points-to sets and restart with the dead
         branches removed, until the set of decided tests is stable and re-validated by the last run."""
         for restart in range(max_restarts):
-            self.V.clear(); self.F.clear(); self.R.clear(); self.Y.clear()
-            self.objs = {k: v for k, v in self.objs.items() if k[0] in ("SRC", "GS", "NONE")}
-            self.ctxs.clear(); self.alarms.clear(); self.sites.clear(); self.globals_mut.clear()
-            self.unknown_calls.clear(); self.cut_hits.clear(); self.repo_calls.clear(); self.strong_reads.clear()
-            self.changed = True
+            self._reset()
             self.solve_once(max_rounds)
             # decide tests in the final state (no state change is kept from this pass)
             self.deciding = True
@@ -1625,11 +1964,7 @@ class Analysis:
                 self.decided = {k: v for k, v in self.decided.items() if nd.get(k) == v}
         # no self-validating set found within the budget: fall back to no pruning at all (sound)
         self.decided = {}
-        self.V.clear(); self.F.clear(); self.R.clear(); self.Y.clear()
-        self.objs = {k: v for k, v in self.objs.items() if k[0] in ("SRC", "GS", "NONE")}
-        self.ctxs.clear(); self.alarms.clear(); self.sites.clear(); self.globals_mut.clear()
-        self.unknown_calls.clear(); self.cut_hits.clear(); self.repo_calls.clear(); self.strong_reads.clear()
-        self.changed = True
+        self._reset()
         self.solve_once(max_rounds)
         self.restarts = max_restarts + 1
         self.validated = False
@@ -1662,4 +1997,7 @@ class Analysis:
                 else:
                     self.run_body(node.body, c)
         self.rounds = rounds
+        # the loop may also stop because the budget is exhausted: then the state is NOT a fixpoint and nothing
+        # may be concluded from it
+        self.converged = not self.changed
         return rounds
